@@ -2,6 +2,7 @@ package main
 
 import (
 	"context"
+	"strings"
 )
 
 func bgctx() context.Context { return context.Background() }
@@ -21,7 +22,7 @@ func lemmaObligations(eng *Engine, prop string) []*Obligation {
 		c := eng.newFnCtx(nil, nil)
 		c.funcName = "lemma." + l.Name
 		st := &State{cells: map[cellKey]Val{}, heap: map[string]string{}, ghost: map[string]Val{}}
-		st.alloc = c.sc.declare("alloc!0", "Int")
+		st.alloc = "0"
 		env := &Env{c: c, st: st, vars: map[string]Val{}}
 		ok := true
 		for _, u := range l.Using {
@@ -37,7 +38,33 @@ func lemmaObligations(eng *Engine, prop string) []*Obligation {
 			}
 			c.sc.assert(t)
 		}
-		goal, err := env.evalBool(l.E)
+		// skolemise a top-level universal quantifier: the solvers do much better on constants
+		goalExpr := l.E
+		if goalExpr.Op == "forall" {
+			ok2 := true
+			for _, b := range goalExpr.Vars {
+				var v Val
+				switch {
+				case b.Type == "int" || b.Type == "Int":
+					v = mkInt(c.sc.declare("sk."+b.Name, "Int"), nil)
+				case b.Type == "bool":
+					v = mkBool(c.sc.declare("sk."+b.Name, "Bool"))
+				case eng.sorts[b.Type] || strings.HasPrefix(b.Type, "("):
+					v = mkOpaque(c.sc.declare("sk."+b.Name, b.Type), b.Type)
+				default:
+					ok2 = false
+				}
+				if ok2 {
+					env.vars[b.Name] = v
+				}
+			}
+			if ok2 {
+				goalExpr = goalExpr.Args[0]
+			} else {
+				env.vars = map[string]Val{}
+			}
+		}
+		goal, err := env.evalBool(goalExpr)
 		ob := &Obligation{Name: "lemma." + l.Name, Kind: "lemma", Func: "lemma", Props: l.Props, Mark: c.sc.mark(), Cond: "true", Goal: goal, Pos: l.Pos, Text: l.Text, Script: c.sc}
 		if err != nil || !ok {
 			ob.Goal = "false"
